@@ -75,6 +75,7 @@ func (w *World) settle() bool {
 				busy = true
 				to := n.snapReports[0]
 				n.snapReports = n.snapReports[1:]
+				w.mon.curReportTo = to
 				w.call(n, "reportsnap", nil, func() { n.rn.ReportSnapshot(to, raft.SnapshotFinish) })
 			}
 		}
